@@ -1,4 +1,4 @@
-HOOK_COMMITS = ["7dfe795", "5b71e95"]
+HOOK_COMMITS = ["7dfe795", "5b71e95", "d8eabb6"]
 NOT_APPLICABLE = {}
 
 _E1 = "E1 controlled scheduler (synctest bubble + verifhook tickets + rapid decision stream)"
